@@ -138,6 +138,14 @@ def main() -> int:
         print(f"[proof] {pr}")
     print(f"[proof] {pid}: obligations={len(proof.obligations)} discharged={len(proof.discharged)}")
 
+    # anchored sources changed since the models were written: search harder (not a violation by itself)
+    drift = common.anchor_drift(pid)
+    ctx.notes["anchor_drift"] = drift
+    if drift and not os.environ.get("VERIF_FORCE_SCALE") and not os.environ.get("VERIF_NO_DRIFT_SCALE"):
+        ctx.scale = {"C01": 2, "C12": 2}.get(pid, 3)
+        print(f"[anchor] anchored source differs from the baseline the model was validated on: {', '.join(drift)}; "
+              f"generator budget x{ctx.scale}")
+
     # ---------------------------------------------------------------- stages B + C
     limit = int(os.environ.get("VERIF_TIME_LIMIT", "0") or 0)
     if limit:
